@@ -288,7 +288,15 @@ static void check_geometry(const PMesh &m, const std::string &cs) {
             nr /= l;
             auto n0 = m.normal(m.halfface_handle(fh, 0)), n1 = m.normal(m.halfface_handle(fh, 1));
             if (!vclose(n0, nr, 1e-10)) viol("c19:geometry:normal", "face " + std::to_string(fh.idx()) + " normal " + vstr(n0) + " expected " + vstr(nr), cs);
-            // the other side: computed from that side's first three vertices; for planar faces it is the exact opposite
+            // the other side: the same formula on that side's own first three vertices (for a non-planar face this is NOT -n0)
+            {
+                std::vector<Vec3d> q1;
+                for (auto heh : m.halfface(m.halfface_handle(fh, 1)).halfedges()) q1.push_back(P(m.from_vertex_handle(heh)));
+                Vec3d n1r = (q1[1] - q1[0]) % (q1[2] - q1[1]);
+                double l1 = n1r.norm();
+                if (l1 > 1e-9) { n1r /= l1; if (!vclose(n1, n1r, 1e-10)) viol("c19:geometry:normal(side1)", "face " + std::to_string(fh.idx()) + " normal of halfface 1 " + vstr(n1) + " expected " + vstr(n1r), cs); }
+            }
+            // for planar faces it is the exact opposite
             bool planar = true;
             for (auto &p : ps) if (std::fabs((p - ps[0]) | nr) > 1e-9) planar = false;
             bool convex_start = true;
